@@ -11,6 +11,9 @@ ASAN_ENV = {"ASAN_OPTIONS": "exitcode=77:detect_leaks=0:abort_on_error=0:allocat
             "UBSAN_OPTIONS": "exitcode=77:print_stacktrace=0"}
 
 
+_intern = __import__("sys").intern
+
+
 class Step:
     __slots__ = ("hid", "step", "op", "res", "conts", "al", "ev", "te", "oracle", "inj")
 
@@ -59,12 +62,12 @@ def parse_transcript(text):
             if len(parts) < 6 or len(head) < 3 or not head[2].isdigit() or not parts[-1].startswith("ev="):
                 continue  # truncated by a crash
             s = Step()
-            s.hid, s.step = head[1], int(head[2])
-            s.op, s.res = parts[1], parts[2]
-            s.conts = parts[3:-2]
-            s.al = parts[-2][3:]
+            s.hid, s.step = _intern(head[1]), int(head[2])
+            s.op, s.res = _intern(parts[1]), _intern(parts[2])
+            s.conts = [_intern(x) for x in parts[3:-2]]
+            s.al = _intern(parts[-2][3:])
             evte = parts[-1].split(" ")
-            s.ev = evte[0][3:]
+            s.ev = _intern(evte[0][3:])
             s.te = int(evte[1][3:])
             s.inj = evte[2][4:] if len(evte) > 2 and evte[2].startswith("inj=") else ""
             if s.hid in hists:
